@@ -489,6 +489,9 @@ CHECKS = {
               scn=[('MC_SubScn', {'quick': ['SubScn_q5.cfg'], 'thorough': ['SubScn_q5.cfg', 'SubScn_z.cfg']})]),
             T('MC_RawSock', 'Raw_xpub.cfg'), T('MC_RawSock', 'Raw_xsub.cfg'),
             R('xpub', 'xpub'), R('pub', 'xpub'), R('xsub', 'xsub'),
+            # the contexts of a SUB socket share one received message until MakeUnique: the forced interleaving of its copy
+            # with another holder's release (Dup gate), concurrent releases
+            C('msgpool', 'TestMsgPool', 'TraceMsg', trivial_len=0, vtimeout=3000),
         ],
         'assumptions': ASSUME_COMMON,
     },
